@@ -40,7 +40,7 @@ def lean_stage(ctx, mod):
         gen_failed = [k for k, v in report.items() if not v['ok'] and k.startswith('gen:')]
         for k in gen_failed:
             ctx.oblige('translation:' + k, 'translation', False, report[k]['detail'])
-        ok, log = common.lake_build([f'FFVerif.Props.{prop}'])
+        ok, log = common.lake_build(getattr(mod, 'LEAN_MODULES', [f'FFVerif.Props.{prop}']))
         fails = common.failed_decls(log) if not ok else []
         bad_decls = []
         for f in fails:
@@ -49,7 +49,8 @@ def lean_stage(ctx, mod):
         audit_ok, axioms, alog = (False, {}, '')
         # the audit file is derived from the property's theorem list
         apath = os.path.join(common.LEAN, 'FFVerif', 'Audit', prop + '.lean')
-        atext = f'import FFVerif.Props.{prop}\n' + ''.join(
+        modules = getattr(mod, 'LEAN_MODULES', [f'FFVerif.Props.{prop}'])
+        atext = ''.join(f'import {m}\n' for m in modules) + ''.join(
             f'#print axioms {t if t.startswith("FFVerif.") else f"FFVerif.{prop}." + t}\n'
             for t in mod.THEOREMS)
         translate.write_if_changed(apath, atext)
@@ -82,7 +83,8 @@ def lean_stage(ctx, mod):
         'tools/ffv correspondence harness and its tolerances (differential testing, not proof)',
     ]
     if ctx.tier == 'thorough' and ok and os.environ.get('FFV_LEANCHECKER', '1') == '1':
-        rc, out, err = common.run(['lake', 'env', 'leanchecker', f'FFVerif.Props.{prop}'],
+        rc, out, err = common.run(['lake', 'env', 'leanchecker']
+                                  + getattr(mod, 'LEAN_MODULES', [f'FFVerif.Props.{prop}']),
                                   cwd=common.LEAN, timeout=3600)
         ctx.oblige('audit:leanchecker', 'audit', rc == 0, (out + err)[-300:])
 
